@@ -59,7 +59,8 @@ def mutate(rng, tree):
                 del t[p]
                 t[p + ".renamed"] = (c, m)
             elif k == "touch":
-                t[p] = (c, m + rng.choice([1, 2, 3600, -1, -2, -3600, -86400]) * 10**9)   # later AND earlier than recorded
+                dt = rng.choice([1, 2, 3600, -1, -2, -3600, -86400]) * 10**9             # later AND earlier than recorded
+                t[p] = (c, m + dt if m + dt >= 0 else m - dt)                              # (never before the epoch: not expressible in the driver protocol)
             touched.add(p)
             kinds.append(k)
     return t, touched, kinds
